@@ -138,6 +138,35 @@ func pairs(v string) ([][]string, bool) {
 	return out, true
 }
 
+func addrPairs(as []*netmail.Address) [][]string {
+	out := [][]string{}
+	for _, a := range as {
+		if a == nil {
+			out = append(out, []string{"<nil>", "<nil>"})
+			continue
+		}
+		out = append(out, []string{a.Name, a.Address})
+	}
+	return out
+}
+
+// stringsAgree: the Get...String getters return the String() form of what the address getters return.
+func stringsAgree(m *mail.Msg) bool {
+	same := func(ss []string, as []*netmail.Address) bool {
+		if len(ss) != len(as) {
+			return false
+		}
+		for i := range ss {
+			if as[i] == nil || ss[i] != as[i].String() {
+				return false
+			}
+		}
+		return true
+	}
+	return same(m.GetToString(), m.GetTo()) && same(m.GetCcString(), m.GetCc()) && same(m.GetBccString(), m.GetBcc()) &&
+		same(m.GetFromString(), m.GetFrom()) && same(m.GetAddrHeaderString(mail.HeaderReplyTo), m.GetAddrHeader(mail.HeaderReplyTo))
+}
+
 // Run replays the scenario.
 func (rn *Runner) Run() {
 	sc, r := rn.Sc, rn.Rec
@@ -157,6 +186,11 @@ func (rn *Runner) Run() {
 			return
 		}
 		r.Emit("callret", "i", i+1, "err", err != nil)
+		// the abstract state of AddrHeaders.tla, projected from the real Msg through its getters after every call
+		r.Emit("state", "i", i+1, "to", addrPairs(m.GetTo()), "cc", addrPairs(m.GetCc()), "bcc", addrPairs(m.GetBcc()),
+			"from", addrPairs(m.GetFrom()), "env", addrPairs(m.GetAddrHeader(mail.HeaderEnvelopeFrom)),
+			"reply", addrPairs(m.GetAddrHeader(mail.HeaderReplyTo)),
+			"strings", stringsAgree(m))
 	}
 	// rendering
 	var out bytes.Buffer
